@@ -118,10 +118,9 @@ ASSUMPTIONS = [
     'get_E_act(del_m=1) its dimensional form (documented in its docstring); not driven on SurfaceReaction, which has no '
     'such no-TS branch',
     'species attributes that are not in the formulas (n_sites >= 2 of adsorbates, a gas reactant carrying a cat_site, '
-    'notes, smiles) are swept on the site cases of both classes and must not move A.  Exception recorded as telemetry '
-    '(B3_gas_cat_site_density_enters_sigma): ChemkinReaction.get_A collects the site density of every reactant with a '
-    'cat_site, also a gas one, while the exponent counts surface species only; with n_surf >= 2 only the scaling law '
-    '(ratio test) and positivity are asserted there, with n_surf = 1 the value kB/h is',
+    'notes, smiles) are swept on the site cases of both classes and must not move A: in particular a gas reactant with '
+    'a cat_site neither counts in n_surf nor contributes its site density to sigma (formula value asserted for every '
+    'n_surf and operation; fixed in /repo by d35513d)',
     'phase spellings other than G / S (documented g, gas; s) are not generated for ChemkinReaction: _is_gas_phase and '
     '_get_n_surf compare case-sensitively, so an all-gas reaction spelled g gives A = 0 / ValueError (reported, not asserted)',
     'direction labels (None / cleavage / synthesis) of the SurfaceReaction and of the BEP are drawn independently (all 9 '
@@ -1135,10 +1134,8 @@ def _run_A_surface(spec, ctx, rxn, objs):
     # species attributes that are not in the formulas
     gas_cs = [n for n, _ in spec['reactants'] if n in (spec.get('gas_site_of') or {})
               and spec['species'][n]['type'] == 'Nasa']
-    # ChemkinReaction.get_A collects the density of every reactant carrying a cat_site (also a gas one) while the
-    # exponent counts surface species only: with n_surf >= 2 the *value* of sigma is then not the one of the
-    # surface reactants (telemetry); the scaling law and the n_surf = 1 value are still decided
-    sigma_ok = not (gas_cs and cls == 'ChemkinReaction' and n_surf >= 2)
+    # a gas reactant carrying a cat_site is not a surface reactant: its site density must not enter sigma and it
+    # does not count in n_surf -- the formula value is asserted for every n_surf and every operation
     if formula and (n_surf > 0 or cls == 'ChemkinReaction'):
         if any((spec['species'][n].get('n_sites') or 1) > 1 for n, _ in spec['reactants']
                if n in spec['site_of'] and n not in bulk):
@@ -1221,12 +1218,6 @@ def _run_A_surface(spec, ctx, rxn, objs):
         if not formula:
             ctx.check('B3', g > 0 and math.isfinite(g), dict(mm, what='positive'), value=g)
             continue
-        if not sigma_ok:
-            ctx.check('B3', g > 0 and math.isfinite(g), dict(mm, what='positive'), value=g)
-            if g > 0 and abs(math.log(g) - expect(sig, q, ln)) > 1e-9:
-                ctx.extra['B3_gas_cat_site_density_enters_sigma'] = \
-                    ctx.extra.get('B3_gas_cat_site_density_enters_sigma', 0) + 1
-            continue
         _log_close(ctx, g, expect(sig, q, ln), dict(mm, what='formula'), sc, sigma=sig, densities=lst,
                    unit='%s/%s2' % (q, ln))
         _log_close(ctx, g, expect(sig, q, ln, si=True), dict(mm, what='formula_SI'), sc, tol=TOL_REF, oracle='B3u')
@@ -1249,7 +1240,7 @@ def _run_A_surface(spec, ctx, rxn, objs):
     f = spec['factor']
     tests = [('all_sites', {k: f for k in spec['sites']})]
     used = sorted(set(spec['site_of'][n] for n, _ in spec['reactants'] if n in spec['site_of'] and n not in bulk))
-    if len(used) > 1 and sigma_ok:
+    if len(used) > 1:
         tests.append(('one_site', {used[0]: f}))
     for label, scl in tests:
         r2, _ = _build(spec, scale=scl)
